@@ -632,7 +632,7 @@ func vfC08Run(t *testing.T, cs vfC08Case, out *vfC08Out, isKnown func(string) bo
 			if k.gatedSub && k.idle() {
 				k.gatedSub = false
 			}
-			return k.gatedSub
+			return k.gatedSub || w.Gates.Waiting("sub:"+k.conn.Name) > 0
 		}
 		releaseSubGate := func(k *vfC08ConnState) {
 			vfSettle() // a subscribe started together with the previous step may not have reached its gate yet
@@ -706,6 +706,10 @@ func vfC08Run(t *testing.T, cs vfC08Case, out *vfC08Out, isKnown func(string) bo
 				}
 			case vfC08Subscribe:
 				ch := chName(s.Ch)
+				if inPar && !s.Gate {
+					// an un-gated subscribe never overlaps operations started by the previous step (see generator note)
+					vfSettle()
+				}
 				if s.Server || k.cfg.Uni {
 					if !connectSeen(k) {
 						break
@@ -722,6 +726,7 @@ func vfC08Run(t *testing.T, cs vfC08Case, out *vfC08Out, isKnown func(string) bo
 					if k.connectAt == 0 {
 						break
 					}
+					w.Gates.Disarm("sub:" + k.conn.Name) // an earlier gated subscribe may have failed before reaching its gate
 					if s.Gate {
 						w.Gates.Arm("sub:"+k.conn.Name, 1)
 					}
@@ -1091,6 +1096,25 @@ func vfC08Run(t *testing.T, cs vfC08Case, out *vfC08Out, isKnown func(string) bo
 				U := c.unsub[ch]
 				established += F[ch]
 				ended += U
+				if U < F[ch] && k.connSubs[ch] > 0 && pushUnsub[ch] > 0 {
+					// a connect-time subscription torn down by a server-side unsubscribe that reached the client after
+					// connectCmd finalised the subscription but before the connect callback installed the handlers
+					serverCb := 0
+					for _, e := range events {
+						if e.Client == id && e.Kind == "unsubscribe" && e.Ch == ch && !strings.HasPrefix(e.Detail, "code=1 ") {
+							serverCb++
+						}
+					}
+					key := "C08:server-unsubscribe-between-connect-reply-and-connect-callback-has-no-unsubscribe-callback"
+					if pushUnsub[ch] > serverCb && F[ch]-U <= pushUnsub[ch]-serverCb {
+						ex := fmt.Sprintf("connection %s channel %s: %d established, %d unsubscribe callbacks, %d unsubscribe pushes", k.conn.Name, ch, F[ch], U, pushUnsub[ch])
+						if knownHit(key, ex) {
+							continue
+						}
+						return "[" + key + "] " + fmt.Sprintf("O5: connection %s channel %s: %d subscription(s) were established and ended (unsubscribe push written %d time(s)) but the unsubscribe callback ran %d time(s); events: %s; frames: %s",
+							k.conn.Name, ch, F[ch], pushUnsub[ch], U, vfC08RenderEvents(events, id), vfRenderFrames(k.conn.Frames()))
+					}
+				}
 				if U < F[ch] {
 					return fmt.Sprintf("O5: connection %s channel %s: %d subscription(s) were established (success frames) and the connection is closed, but the unsubscribe callback ran %d time(s); events: %s; frames: %s",
 						k.conn.Name, ch, F[ch], U, vfC08RenderEvents(events, id), vfRenderFrames(k.conn.Frames()))
